@@ -122,7 +122,7 @@ theorem chase_mono (fs : List FsEnt) (fuel : Nat) (name : Path) (names : List Pa
           · exact ih _ _ x (List.mem_append_left _ hx2)
 
 theorem chase_target (fs : List FsEnt) (fuel : Nat) (name t : Path) (e : FsEnt) (names : List Path)
-    (hf : fsFind fs name = some e) (hl : e.link = some t) (habs : isAbs t = true) :
+    (hf : lfind fs name = some e) (hl : e.link = some t) (habs : isAbs t = true) :
     t ∈ chase fs (fuel + 1) name names := by
   unfold chase
   rw [hf]
@@ -141,10 +141,29 @@ theorem chase_target (fs : List FsEnt) (fuel : Nat) (name t : Path) (e : FsEnt) 
 
 /-- a symlink named by an output: its target is among the logical names -/
 theorem logicalNames_target' (fs : List FsEnt) (name t : Path) (e : FsEnt)
-    (hclean : cleanAbs name = name) (hf : fsFind fs name = some e) (hl : e.link = some t)
+    (hclean : cleanAbs name = name) (hf : lfind fs name = some e) (hl : e.link = some t)
     (habs : isAbs t = true) : t ∈ logicalNames fs name := by
   unfold logicalNames
   rw [hclean, hf]
   exact chase_target fs 39 name t e _ hf hl habs
+
+/-- the fully resolved location of a name (all linked parent components
+followed) is among its logical names -/
+theorem logicalNames_resolved' (fs : List FsEnt) (name r : Path) (e : FsEnt)
+    (hf : lfind fs (cleanAbs name) = some e) (hr : evalSymlinks fs (cleanAbs name) = some r) :
+    r ∈ logicalNames fs name := by
+  unfold logicalNames
+  rw [hf]
+  dsimp only
+  rw [hr]
+  apply chase_mono
+  by_cases hne : (r != cleanAbs name) = true
+  · simp [hne]
+  · have : r = cleanAbs name := by simpa using hne
+    subst this
+    by_cases hc : (cleanAbs name != name) = true
+    · simp [hc]
+    · have : cleanAbs name = name := by simpa using hc
+      simp [this]
 
 end Martian.Vdr
